@@ -337,15 +337,16 @@ func (s *BaseNodeService) verifyMessage(fsmInstance *state_machines.FSMInstance,
 	}
 
 	// a request can speak only for the participant who signed the message
-	var claim struct{ ParticipantId *int }
-	if err := json.Unmarshal(message.Data, &claim); err == nil && claim.ParticipantId != nil {
+	// (decoded like the typed requests: an absent or null ParticipantId means participant 0)
+	var claim struct{ ParticipantId int }
+	if err := json.Unmarshal(message.Data, &claim); err == nil {
 		senderID, err := fsmInstance.GetIDByUsername(message.SenderAddr)
 		if err != nil {
 			return fmt.Errorf("failed to GetIDByUsername: %w", err)
 		}
-		if senderID != *claim.ParticipantId {
+		if senderID != claim.ParticipantId {
 			return fmt.Errorf("message from %s (participant %d) claims to be from participant %d",
-				message.SenderAddr, senderID, *claim.ParticipantId)
+				message.SenderAddr, senderID, claim.ParticipantId)
 		}
 	}
 
